@@ -1343,3 +1343,5 @@ MANIFEST = {
             "proof over a finite recorded table (probe-class coverage is the weak link), re-recorded on every run. The oracle "
             "independently executes every spelling. Trusted: the spy (30 lines), the option normaliser, NumPy dispatch.",
 }
+
+MANIFEST_ADDENDUM = "Oracle additions: op-specific keyword options (absolute's nan_to_num) through every spelling that accepts them, at the points where they matter; the rounding/modulo family's refusal of non-constant tensors also inside no_autodiff."
